@@ -565,6 +565,16 @@ impl CelValue {
         CelValue::checked_int_result(val.and_then(|v| i64::try_from(v).ok()), op)
     }
 
+    /// Result of checked timestamp/duration arithmetic: the value, or a range error.
+    fn checked_time_result<T: Into<CelValue>>(val: Option<T>) -> CelValue {
+        match val {
+            Some(v) => v.into(),
+            None => CelValue::from_err(CelError::value(
+                "Timestamp/duration arithmetic out of range",
+            )),
+        }
+    }
+
     #[inline]
     fn error_prop_or<F>(self, rhs: CelValue, f: F) -> CelValue
     where
@@ -1320,12 +1330,16 @@ impl Add for CelValue {
                 }
                 CelValue::TimeStamp(v1) => {
                     if let CelValue::Duration(v2) = rhs {
-                        return CelValue::from_timestamp(v1 + v2);
+                        return CelValue::checked_time_result(v1.checked_add_signed(v2));
                     }
                 }
                 CelValue::Duration(v1) => match rhs {
-                    CelValue::TimeStamp(v2) => return CelValue::from_timestamp(v2 + v1),
-                    CelValue::Duration(v2) => return CelValue::Duration(v1 + v2),
+                    CelValue::TimeStamp(v2) => {
+                        return CelValue::checked_time_result(v2.checked_add_signed(v1))
+                    }
+                    CelValue::Duration(v2) => {
+                        return CelValue::checked_time_result(v1.checked_add(&v2))
+                    }
                     _ => {}
                 },
                 _ => {}
@@ -1376,13 +1390,19 @@ impl Sub for CelValue {
                     }
                 }
                 CelValue::TimeStamp(v1) => match rhs {
-                    CelValue::Duration(v2) => return CelValue::from_timestamp(v1 - v2),
+                    CelValue::Duration(v2) => {
+                        return CelValue::checked_time_result(v1.checked_sub_signed(v2))
+                    }
                     CelValue::TimeStamp(v2) => return CelValue::from_duration(v1 - v2),
                     _ => {}
                 },
                 CelValue::Duration(v1) => match rhs {
-                    CelValue::TimeStamp(v2) => return CelValue::from_timestamp(v2 - v1),
-                    CelValue::Duration(v2) => return CelValue::from_duration(v1 - v2),
+                    CelValue::TimeStamp(v2) => {
+                        return CelValue::checked_time_result(v2.checked_sub_signed(v1))
+                    }
+                    CelValue::Duration(v2) => {
+                        return CelValue::checked_time_result(v1.checked_sub(&v2))
+                    }
                     _ => {}
                 },
                 _ => {}
